@@ -36,6 +36,11 @@ Apply(s, e) ==
     [] e.act = "GetPos" ->
          <<IF ~e.incell THEN "positions-not-in-half-open-cell"
            ELSE IF e.ret # g[e.i].pos THEN "positions-value" ELSE "ok", g>>
+    [] e.act = "Frame" ->
+         (* one frame as a Structure (traj[t], get_structure(t), iteration): the atoms of that frame, in whatever representation the source is *)
+         <<IF e.t + 1 \notin DOMAIN g[e.i].pos THEN "frame-index"
+           ELSE IF e.ret # g[e.i].pos[e.t + 1] THEN "frame-structure-coordinates"
+           ELSE IF e.sp # g[e.i].sp THEN "frame-structure-species" ELSE "ok", g>>
     [] e.act = "GetDisp" ->
          <<IF ~NoHalfStep(g[e.i].pos, N) THEN "ok"
            ELSE IF e.ret # Steps(g[e.i].pos, N) THEN "displacements-not-minimum-image-steps"
